@@ -1,11 +1,12 @@
 #!/bin/bash
-# Rebuilds /verif/bin/vpx from /repo's CURRENT working tree (hooks on: -tags verif) with the map-order overlay.
+# Rebuilds bin/vpx from /repo's CURRENT working tree (hooks on: -tags verif) with the map-order overlay.
 set -euo pipefail
-. /verif/scripts/env.sh
-[ -f /verif/build/overlay.json ] || /verif/scripts/mkoverlay.sh >&2
-cd /verif/harness
+. "$(dirname "$0")/env.sh"
+[ -f $ROOT/build/overlay.json ] || $ROOT/scripts/mkoverlay.sh >&2
+cd $ROOT/harness
 # go.sum of the harness module must cover the repository's (which a change under test may have extended)
-cat /repo/go.sum /verif/harness/go.sum 2>/dev/null | sort -u > /verif/harness/go.sum.new
-if ! cmp -s /verif/harness/go.sum.new /verif/harness/go.sum; then mv /verif/harness/go.sum.new /verif/harness/go.sum; else rm -f /verif/harness/go.sum.new; fi
-mkdir -p /verif/bin
-go build -tags verif -overlay /verif/build/overlay.json -o /verif/bin/vpx ./cmd/vpx
+cat $REPO/go.sum $ROOT/harness/go.sum 2>/dev/null | sort -u > $ROOT/harness/go.sum.new
+if ! cmp -s $ROOT/harness/go.sum.new $ROOT/harness/go.sum; then mv $ROOT/harness/go.sum.new $ROOT/harness/go.sum; else rm -f $ROOT/harness/go.sum.new; fi
+mkdir -p $ROOT/bin
+go build -tags verif -overlay $ROOT/build/overlay.json -o $ROOT/bin/vpx.new ./cmd/vpx
+mv $ROOT/bin/vpx.new $ROOT/bin/vpx
